@@ -46,11 +46,24 @@ package hotstuff
 //@ interface IDSet.Contains
 //@   ensures result == setmem(self, id)
 
-//@ func (*Block).ToBytes
-//@   trusted the bytes-to-sign of a block are a function of the block (serialisation checked under C12)
-//@   requires b != nil
-//@   ensures content(result) == blockcontent(b) && fresh(result)
+// Block.ToBytes (what a block's hash and every vote on it covers): the byte string has one
+// segment per field, in a fixed layout; in particular the command batch and the certificate
+// are part of it, so a block with another batch has other bytes-to-sign.
+//@ pure func qcbyte(qc QuorumCert, i int) int
+//@ pure func qcblen(qc QuorumCert) int
+//@ func (QuorumCert).ToBytes
+//@   trusted view, hash and signature bytes of the certificate: a function of the certificate
+//@   ensures fresh(result) && len(result) == qcblen(qc) && qcblen(qc) >= 0 && (forall i int :: {result[i]} 0 <= i && i < len(result) ==> result[i] == qcbyte(qc, i))
 //@   modifies alloc
+//@ func (*Block).ToBytes property C06,C02
+//@   requires b != nil
+//@   ensures [content-id] content(result) == blockcontent(b)
+//@   ensures [fresh] fresh(result)
+//@   opt trusted-posts content-id
+//@   modifies alloc
+//@   ensures [layout-length] len(result) == 32 + 4 + 8 + clientpb.batchblen(b.batch) + qcblen(b.cert) + 8
+//@   ensures [batch-is-signed] forall k int :: {result[k]} 44 <= k && k < 44 + clientpb.batchblen(b.batch) ==> result[k] == clientpb.batchbyte(b.batch, k - 44)
+//@   ensures [cert-is-signed] forall k int :: {result[k]} 44 + clientpb.batchblen(b.batch) <= k && k < 44 + clientpb.batchblen(b.batch) + qcblen(b.cert) ==> result[k] == qcbyte(b.cert, k - 44 - clientpb.batchblen(b.batch))
 //@ func (View).ToBytes
 //@   trusted little-endian encoding of the view; a function of the view
 //@   ensures content(result) == viewcontent(v) && len(result) == 8 && fresh(result)
